@@ -888,4 +888,46 @@ theorem order_guards_generated :
       ['s', 'e', 'l', 'f', '.', '_', '_', 'i', 't', 'e', 'm', 's', '[', 'k', 'e', 'y', ']', '.', 'a', 't', 't', 'r', 's']] := by
   decide +kernel
 
+/-! ### sibling groups are found by comparing whole parent PATHS, not their text -/
+
+/-- the grouping scan of `_deserialize_attrs` with the "same group" test as a parameter -/
+def groupsFuelBy (same : Path → Path → Bool) : Nat → Flat → List Flat
+  | 0, _ => []
+  | _, [] => []
+  | n + 1, x :: rest =>
+    (x :: rest.takeWhile (fun pk => same x.1 pk.1)) :: groupsFuelBy same n (rest.dropWhile (fun pk => same x.1 pk.1))
+
+/-- the model's scan is the one that compares the parent index paths for equality (`own_path != next_own_path` on the joined
+    components, serializer.py:106-112; equal joined strings ⇔ equal index lists: `path_codec`) -/
+theorem groups_by_parent_path (n : Nat) (l : Flat) :
+    groupsFuel n l = groupsFuelBy (fun x y => parent y == parent x) n l := by
+  induction n generalizing l with
+  | zero => cases l <;> rfl
+  | succ n ih =>
+    cases l with
+    | nil => rfl
+    | cons x rest => simp only [groupsFuel, groupsFuelBy, ih]
+
+/-- "same depth and the parent's TEXT is a prefix of the path's text" — index strings compared as text, no `.` delimiter -/
+def textPrefixSame (x y : Path) : Bool := depth y == depth x && (encPath (parent x)).isPrefixOf (encPath y)
+
+/-- **The text-prefix test is another function** (regression, seeded mutation): the parent `1` is a text prefix of the paths below
+    `10`, so for a function with eleven slots whose slots 1 and 10 carry type arguments (`f(c, a: list[int], p2 … p9) -> dict[str,
+    Conf]`) the two child groups are adjacent in the depth-sorted paths and merge: slot 1 gets the arguments of slot 10, slot 10 none.
+    The modelled scan (`flatten_order`: one group per parent path) restores the forest. -/
+theorem text_prefix_grouping_counterexample :
+    let leaf : Str → Attr := fun k => .mk k []
+    let f : Forest := [leaf ['c'], .mk ['l'] [leaf ['i']], leaf ['i'], leaf ['i'], leaf ['s'], leaf ['i'], leaf ['c'], leaf ['i'], leaf ['b'], leaf ['i'],
+      .mk ['d'] [leaf ['s'], leaf ['c']]]
+    let look : Lookup := fun k => some (k, [])
+    textPrefixSame [1, 0] [10, 0] = true ∧ parent [10, 0] ≠ parent [1, 0] ∧
+    (match rebuild look (flatten f) with
+      | .ok rs => decide (obsList rs = f)
+      | .error _ => false) = true ∧
+    (match stepGroups look (groupsFuelBy textPrefixSame (flatten f).length (sortByDepth (flatten f))) [] with
+      | .ok rs => decide (obsList rs = [leaf ['c'], .mk ['l'] [leaf ['i'], leaf ['s'], leaf ['c']], leaf ['i'], leaf ['i'], leaf ['s'], leaf ['i'], leaf ['c'],
+          leaf ['i'], leaf ['b'], leaf ['i'], leaf ['d']])
+      | .error _ => false) = true := by
+  decide +kernel
+
 end Tranp.C14
